@@ -18,7 +18,13 @@
 (*   FrontValidateCli(k, j)             exit 0 | 3 | 1                     *)
 (*   FrontCheckParseCli(k, j, e)        exit 0 | 1                         *)
 (*   FrontPolicyToJson(n)               Est!EstOf(policy n)                *)
-(*   FrontSchemaConv(j), FrontFormat(k), FrontParts(k), FrontLinkCli(..)   *)
+(*   FrontSchemaConv(j), FrontSchemaResolved(j), FrontFormat(k),           *)
+(*   FrontParts(k), FrontTranslatePolicyCli(k, dir),                       *)
+(*   FrontTranslateSchemaCli(j, dir), FrontLinkCli(k, tid, nid, slots)     *)
+(* The Rust API's own answers are FrontAuthorizeApi / FrontValidateApi:    *)
+(* they differ from the FFI's in one place only - a policy text holding a  *)
+(* template is read by PolicySet::from_str but refused by the FFI's        *)
+(* `staticPolicies` field, which is documented as static-only.             *)
 (* Validation ground truth is by construction: each policy carries the     *)
 (* set of fault kinds it was written to contain; an action the schema      *)
 (* lacks is derived from the policy and the schema.                        *)
@@ -106,12 +112,14 @@ FrSchemaOk(j) == FrSchemaSources[j].good /\ FrSchemaSources[j].wf
 FrSc(j) == FrSchemaSources[j].schema
 
 \* entity documents: the store of the world plus extra entities; shape "bad" is not an entities document at all
+\* (the extra users are built from the shared world's second user, so they follow the schema when it grows)
+FrUserAttrs == U2Of(FALSE).attrs
 FrEntDocs == <<
   [shape |-> "ok", extra |-> {}],
   [shape |-> "bad", extra |-> {}],
   [shape |-> "ok", extra |-> {[uid |-> FrTNope, attrs |-> <<>>, tags |-> {}, anc |-> {}]}],
-  [shape |-> "ok", extra |-> {[uid |-> <<"ent", "User", "u9">>, attrs |-> [n |-> <<"str", <<97>>>>, rec |-> <<"rec", <<>>>>], tags |-> {}, anc |-> {}]}],
-  [shape |-> "ok", extra |-> {[uid |-> <<"ent", "User", "u8">>, attrs |-> [n |-> TL(7), rec |-> <<"rec", <<>>>>], tags |-> {}, anc |-> {TG}]}]
+  [shape |-> "ok", extra |-> {[uid |-> <<"ent", "User", "u9">>, attrs |-> [FrUserAttrs EXCEPT !.n = <<"str", <<97>>>>], tags |-> {}, anc |-> {}]}],
+  [shape |-> "ok", extra |-> {[uid |-> <<"ent", "User", "u8">>, attrs |-> [FrUserAttrs EXCEPT !.n = TL(7)], tags |-> {}, anc |-> {TG}]}]
 >>
 FrNE == Len(FrEntDocs)
 FrStoreEnts == {x \in WireStoreOf(FStoreWithout) : TRUE}
@@ -214,14 +222,16 @@ FrWorldPols == <<FrPolSources[1].pols[1], FrPolSources[1].pols[2], FrPolSources[
                  FrPolSources[3].pols[1], FrPolSources[4].pols[1], FrPolSources[7].pols[1], FrPolSources[7].pols[3],
                  FrPolSources[9].pols[1], FrPolSources[10].pols[2], FrPolSources[11].pols[1], FrPolSources[11].pols[2],
                  FrPolSources[13].pols[2]>>
-FrNConv == 50 + Len(Probes) + Len(FrWorldPols)
+FrNPool == 5 * NA                           \* every access atom of the pool under every scope
+FrNConv == FrNPool + Len(Probes) + Len(FrWorldPols)
 FrAnnOf(p) == IF "ann" \in DOMAIN p /\ p.ann # <<>> THEN <<<<"id", p.ann[2]>>>> ELSE <<>>
 FrConvShape(p) == [id |-> "p", effect |-> p.effect, principal |-> p.principal, action |-> p.action, resource |-> p.resource,
                    conds |-> p.conds, annotations |-> FrAnnOf(p), template |-> ("template" \in DOMAIN p /\ p.template)]
 FrConvPol(n) ==
-  IF n <= 50 THEN FrConvShape(Pol(((n - 1) \div 10) + 1, FrWhen(Use(((n - 1) % 10) + 1))))
-  ELSE IF n <= 50 + Len(Probes) THEN FrConvShape(Pol(((n - 1) % 5) + 1, <<<<IF n % 2 = 0 THEN "when" ELSE "unless", Probes[n - 50][1]>>>>))
-  ELSE FrConvShape(FrWorldPols[n - 50 - Len(Probes)])
+  IF n <= FrNPool THEN FrConvShape(Pol(((n - 1) \div NA) + 1, FrWhen(Use(((n - 1) % NA) + 1))))
+  ELSE IF n <= FrNPool + Len(Probes)
+       THEN FrConvShape(Pol(((n - 1) % 5) + 1, <<<<IF n % 2 = 0 THEN "when" ELSE "unless", Probes[n - FrNPool][1]>>>>))
+       ELSE FrConvShape(FrWorldPols[n - FrNPool - Len(Probes)])
 \* policy_to_json / template_to_json of the text of policy n: the documented JSON form
 \* (an empty annotations object is not written)
 FrEstDoc(p) == LET e == EstOf(p) IN IF p.annotations = <<>> THEN [k \in DOMAIN e \ {"annotations"} |-> e[k]] ELSE e
@@ -229,9 +239,13 @@ FrontPolicyToJson(n) == FrEstDoc(FrConvPol(n))
 
 \* schema_to_text / schema_to_json (either input syntax): refused unless the source is a well-formed schema
 FrontSchemaConv(j) == IF FrSchemaOk(j) THEN "ok" ELSE "fail"
+\* schema_to_json_with_resolved_types reads the Cedar syntax only and needs every referenced type to be declared
+FrontSchemaResolved(j) == IF FrSchemaSources[j].syntax = "cedar" /\ FrSchemaOk(j) THEN "ok" ELSE "fail"
 \* cedar translate-schema converts fragments: it only needs the source to parse in the syntax the direction names
+\* (with resolved types: a Cedar-syntax source that is a schema)
 FrontTranslateSchemaCli(j, dir) ==
-  IF FrSchemaSources[j].good /\ ((dir = "json-to-cedar") = (FrSchemaSources[j].syntax = "json")) THEN 0 ELSE 1
+  IF dir = "cedar-to-json-with-resolved-types" THEN (IF FrontSchemaResolved(j) = "ok" THEN 0 ELSE 1)
+  ELSE IF FrSchemaSources[j].good /\ ((dir = "json-to-cedar") = (FrSchemaSources[j].syntax = "json")) THEN 0 ELSE 1
 
 \* format and policy_set_text_to_parts work on the text presentation
 FrontFormat(k) == IF FrPolSources[k].text THEN "ok" ELSE "fail"
